@@ -90,6 +90,7 @@ func newService() *core.Service {
 		return "no panic"
 	}, "boom")
 	svc.AddFunction(func(n int) []byte { return make([]byte, n) }, "big")
+	svc.AddFunction(func(ms int) int { time.Sleep(time.Duration(ms) * time.Millisecond); return ms }, "slow")
 	svc.AddMissingMethod(func(name string, args []interface{}) ([]interface{}, error) {
 		if strings.HasPrefix(strings.ToLower(name), "missingpanic") {
 			panic("missing method handler panics")
@@ -365,6 +366,27 @@ func faults() []fault {
 			return nil
 		}},
 	}
+	// a connection is lost to a malformed frame while calls it carried are still running in the
+	// service (with a worker pool these occupy workers): they must not stay stuck
+	slowCall := []byte(`Cs4"slow"a1{i120;}z`)
+	rfs = append(rfs,
+		rawFault{"tcp-malformed-frame-while-calls-run", "tcp unix", func(e *env) error {
+			var frames [][]byte
+			for i := 0; i < 6; i++ {
+				frames = append(frames, peer.TCPFrame(uint32(i+1), slowCall, false))
+			}
+			frames = append(frames, []byte{1, 2, 3, 4, 5, 6, 7, 8, 9, 10, 11, 12, 13})
+			return tcpSend(frames...)(e)
+		}},
+		rawFault{"ws-malformed-frame-while-calls-run", "ws ws-fasthttp", func(e *env) error {
+			var msgs [][]byte
+			for i := 0; i < 6; i++ {
+				msgs = append(msgs, peer.WSFrame(uint32(i+1), slowCall, false))
+			}
+			msgs = append(msgs, []byte{1, 2})
+			return wsSend(fws.BinaryMessage, msgs...)(e)
+		}},
+	)
 	for _, rf := range rfs {
 		rf := rf
 		fs = append(fs, fault{name: "raw-peer/" + rf.name, class: "other", kinds: rf.kinds, inject: rf.send})
